@@ -1072,6 +1072,30 @@ pub fn case(tier: &str, seed: u64, case: u64) -> CaseResult {
 			break;
 		}
 	}
+	// the same sync between two real nodes with their complete p2p stacks, the simulator being the
+	// wire between them (E11 netsim): one fault-free run and one with a lossy, reordering, corrupting wire
+	if res.violations.is_empty() && !fat && !long {
+		for (i, faulty) in [false, true].iter().enumerate() {
+			let rs = rng.fork(&format!("pibd-net{}", i)).next_u64();
+			let out = crate::netsim::pibd_net_run(&world, rs, &format!("pibdnet-c{}r{}", case, i), *faulty, long);
+			res.runs += 1;
+			res.probe("netsim_runs");
+			res.steps += out.rounds;
+			for (k, v) in &out.probes {
+				res.probe_n(k, *v);
+			}
+			for (k, v) in &out.faults {
+				res.fault_n(&format!("wire:{}", k), *v);
+			}
+			res.run_digests.push((fnv64(out.log.join("\n").as_bytes()) ^ rs, *faulty));
+			if let Some(mut v) = out.violation {
+				v.replay = json!({"engine": "netsim", "mode": "pibd", "property": "C16", "case_seed": seed, "long": long, "fat": fat, "quiet": quiet, "run_seed": rs, "faulty": faulty,
+					"log": out.log.iter().rev().take(30).cloned().collect::<Vec<_>>()});
+				res.violations.push(v);
+				break;
+			}
+		}
+	}
 	world.cleanup();
 	res.wall_s = t0.elapsed().as_secs_f64();
 	res
